@@ -847,6 +847,41 @@ private:
   }
   
 
+  // Called when v is about to be marked (again) as unchanged because
+  // it occurs in the constraint that defines a boolean. If v was
+  // modified since another boolean was defined with a constraint over
+  // v, that older constraint is stale: it must be dropped, otherwise
+  // marking v as unchanged would revive it.
+  void forget_stale_constraints(const variable_t &v) {
+    std::vector<variable_t> vs{v};
+    typename invariance_domain_t::set_domain_t v_set(vs.begin(), vs.end());
+    if (m_unchanged_vars <= invariance_domain_t(v_set)) {
+      return; // v has not been modified
+    }
+    transform_if<bool_to_lincons_env_t>(m_bool_to_lincsts,
+		 [&v](const lincst_set_t &s) {
+		   if (s.is_top() || s.is_bottom()) return false;
+		   for (auto const &c: s) {
+		     for (auto const &w: c.variables()) {
+		       if (w == v) return true;
+		     }
+		   }
+		   return false;
+		 },
+		 [](lincst_set_t &s) { s = lincst_set_t::top(); });
+    transform_if<bool_to_refcons_env_t>(m_bool_to_refcsts,
+		 [&v](const refcst_set_t &s) {
+		   if (s.is_top() || s.is_bottom()) return false;
+		   for (auto const &c: s) {
+		     for (auto const &w: c.variables()) {
+		       if (w == v) return true;
+		     }
+		   }
+		   return false;
+		 },
+		 [](refcst_set_t &s) { s = refcst_set_t::top(); });
+  }
+
   /**
    * Reduction from the non-boolean domain to the flat boolean domain.
    */
@@ -871,6 +906,9 @@ private:
 	m_product.first().set_bool(x, boolean_value::top());
       }
       
+      for (auto const &v : cst.variables()) {
+	forget_stale_constraints(v);
+      }
       m_bool_to_lincsts.set(x, lincst_set_t(cst));
       // We assume all variables in cst are unchanged unless the
       // opposite is proven
@@ -909,6 +947,9 @@ private:
 	  // -- inconclusive
 	  m_product.first().set_bool(x, boolean_value::top());
 	}
+      }
+      for (auto const &v : cst.variables()) {
+	forget_stale_constraints(v);
       }
       m_bool_to_refcsts.set(x, refcst_set_t(cst));
       // We assume all variables in cst are unchanged unless the
